@@ -6,3 +6,9 @@ import Micromap.Model.Iter
 import Micromap.Model.Step
 import Micromap.Model.Sys
 import Micromap.Spec.StdFmt
+import Micromap.Proofs.Sat
+import Micromap.Proofs.Prims
+import Micromap.Proofs.Lookup
+import Micromap.Proofs.MapOps
+import Micromap.Proofs.MapApi
+import Micromap.Props.C03
